@@ -40,8 +40,13 @@ Record shape := {
 Record config := { cf_shape : shape; cf_pool : option nat (* worker pool size; None = no limit (multiplex) *) }.
 
 (* ---------------------------------------------------------------- events *)
-Inductive action := Track (r : res) | Untrack (r : res) | Nop.
-Inductive target := TSession | TPlain.             (* session-mode class / plain registered instance *)
+Inductive action := Track (r : res) | Untrack (r : res) | Nop
+  | Stream.   (* the method returns a generator: an item stream is opened (Daemon.streaming_responses); irrelevant to cleanup *)
+(* which registered object serves the request.  A session-mode class gets one instance per connection, created by the
+   first request that needs it; a percall class a new instance for every request.  [ctor] = the resource the class's
+   constructor tracks through current_context.track_resource (None: it tracks nothing): construction happens while
+   serving the request, so the resource belongs to the request's connection. *)
+Inductive target := TSession (ctor : option res) | TPlain | TPercall (ctor : option res).
 Inductive failure := FPlain | FSecurity | FCallback.
 Inductive ending :=
 | EClose                                           (* client closes / resets between requests *)
@@ -97,13 +102,21 @@ Definition set_slot (s : cst) (b : bool) : cst := mkc (c_acc s) (c_open s) (c_en
 Definition set_ended (s : cst) : cst := mkc (c_acc s) (c_open s) true (c_tracked s) (c_inst s) (c_slot s).
 
 (* the method call: a session-mode target creates/uses the connection's instance; the action tracks / untracks *)
-Definition touch (s : cst) (t : target) : cst := match t with TSession => set_inst s true | TPlain => s end.
+Definition track_opt (s : cst) (o : option res) : cst :=
+  match o with Some r => set_tracked s (add_res r (c_tracked s)) | None => s end.
+Definition touch (s : cst) (t : target) : cst :=
+  match t with
+  | TSession o => if c_inst s then s else set_inst (track_opt s o) true
+  | TPlain => s
+  | TPercall o => track_opt s o
+  end.
 Definition serve (s : cst) (t : target) (a : action) : cst :=
   let s := touch s t in
   match a with
   | Track r => set_tracked s (add_res r (c_tracked s))
   | Untrack r => set_tracked s (del_res r (c_tracked s))
   | Nop => s
+  | Stream => s
   end.
 
 (* one cleanup action on connection c *)
